@@ -78,6 +78,13 @@ CHECKS = {
                      "the clip-or-raise clause; oracle is a term algebra with mechanical differentiation on "
                      "independent derivative tables.",
                 technique="exhaustive enumeration of configurations, orders and critical thresholds against a reference model"),
+    "C15": dict(engine=E1, ref="5/C15",
+                text="Bases x type patterns x density classes x transforms x all 18 (alpha, beta) combinations "
+                     "including every special-cased value; sigma compared with its documented definition, the force "
+                     "with minus the divergence of that definition and the Hessian with the Jacobian of that force, "
+                     "both derived by a mechanical product-rule operator on independent derivative tables - the "
+                     "differential relations between the three quantities are decided, not a transcription.",
+                technique="exhaustive enumeration of configurations and parameter special cases against a derived reference model"),
 }
 
 NOT_YET = {}
